@@ -132,16 +132,25 @@ fn step_case(cx: &mut Ctx, rng: &mut Rng, at: At, delta: i64, special: Option<u6
 	};
 	slate.ttl_cutoff_height = cutoff;
 	let expect_expired = cutoff != 0 && h >= cutoff;
+	let own_ttl: Option<u64> = match rng.below(3) {
+		0 => None,
+		1 => Some(1 + rng.below(3)),
+		_ => Some(100),
+	};
+	if own_ttl.is_some() && at == At::PayInvoice {
+		cx.rep.count("pay-invoice-with-own-ttl_blocks");
+	}
 	let wal = &cx.w.wallets[actor];
 	let before = digest(wal);
 	cx.rep.eval();
 	let res = catch(|| match at {
 		At::Receive => wal.receive(&slate, None).map(|_| ()),
 		At::Finalize => wal.finalize(&slate).map(|_| ()),
-		At::PayInvoice => wal.process_invoice(&slate, InitTxArgs { minimum_confirmations: 1, ..Default::default() }).map(|_| ()),
+		// (the acting wallet's own time-to-live wish for its reply must not matter for the incoming slate's expiry)
+		At::PayInvoice => wal.process_invoice(&slate, InitTxArgs { minimum_confirmations: 1, ttl_blocks: own_ttl, ..Default::default() }).map(|_| ()),
 		At::FinalizeInvoice => wal.foreign_finalize(&slate).map(|_| ()),
 	});
-	let case = json!({"job":"c17","step": format!("{:?}", at), "observed_height": h, "cutoff": cutoff.to_string(), "delta": delta, "h0": h0});
+	let case = json!({"job":"c17","step": format!("{:?}", at), "observed_height": h, "cutoff": cutoff.to_string(), "delta": delta, "h0": h0, "actors_own_ttl_blocks": own_ttl});
 	match res {
 		Err((loc, msg)) => cx.rep.violation(&format!("C17|panic|{}", loc), &msg, case),
 		Ok(Ok(())) => {
